@@ -238,12 +238,13 @@ def compare_pair(ctx, a, b, filters, plan_names, is_wt, guards=frozenset()):
                     for who, lst in ((impl, raw), ("generic", raw_ref)):
                         ids = [c.file_id for c in lst if c.file_id is not None]
                         if len(ids) != len(set(ids)):
-                            if "bzr_filter_duplicates" in guards and who == "InterDirStateTree" and spec is not None:
+                            if "bzr_filter_duplicates" in guards and spec is not None:
                                 sim.probe("duplicate_entries")
                             else:
                                 dup = sorted({i for i in ids if ids.count(i) > 1})
                                 ctx.fail("duplicate_entries", who, "%s reports %r more than once" % (who, dup[:4]), params)
                     got, ref = norm_inv(raw, b), norm_inv(raw_ref, b)
+                    got_all, ref_all = got, ref
                     if spec is not None and unv:
                         # unversioned entries are selected by literal path in the generic code and
                         # by related (renamed) path in the dirstate: compare inside the filter only
@@ -280,12 +281,13 @@ def compare_pair(ctx, a, b, filters, plan_names, is_wt, guards=frozenset()):
                         differed = True
                     # a (filtered) result must be applicable to the source
                     if not inc:
-                        applied = apply_inv_delta(src_entries, got)
-                        if spec is not None and name_collision(applied):
-                            sim.probe("filtered_name_collision")
-                        bad = valid_inventory(applied)
-                        if bad:
-                            ctx.fail("invalid_delta", impl, "applying the result to the source does not give a tree: %s; result %r" % (bad, _short(got, 8)), params)
+                        for who, recs in ((impl, got_all), ("generic", ref_all)):
+                            applied = apply_inv_delta(src_entries, recs)
+                            if spec is not None and name_collision(applied):
+                                sim.probe("filtered_name_collision")
+                            bad = valid_inventory(applied)
+                            if bad:
+                                ctx.fail("invalid_delta", who, "applying the result of %s to the source does not give a tree: %s; result %r" % (who, bad, _short(recs, 8)), params)
         # unfiltered changes applied to the source snapshot give the target snapshot
         snap_a, snap_b = T.tree_snapshot(a), T.tree_snapshot(b)
         ent = apply_inv_delta(src_entries, full[False, False])
